@@ -145,6 +145,10 @@ def cp_als(  # noqa: PLR0912,PLR0913,PLR0915
         optdims = np.arange(N)
     else:
         optdims = parse_one_d(optdims)
+        if not np.all(np.isin(optdims, np.arange(N))) or (
+            np.unique(optdims).size != optdims.size
+        ):
+            assert False, "Optdims must be a list of distinct modes of the tensor"
 
     # Error checking
     assert rank > 0, "Number of components requested must be positive"
